@@ -24,6 +24,7 @@
 #include <sys/resource.h>
 #include <sys/time.h>
 
+#include <atomic>
 #include <memory>
 #include <thread>
 #include <vector>
@@ -199,10 +200,22 @@ namespace Pistache::Aio
                 : tid()
             { }
 
-            std::thread::id thread() const { return tid; }
+            Context(const Context& other)
+                : tid(other.tid.load())
+            { }
+
+            Context& operator=(const Context& other)
+            {
+                tid.store(other.tid.load());
+                return *this;
+            }
+
+            std::thread::id thread() const { return tid.load(); }
 
         private:
-            std::thread::id tid;
+            // written by the worker thread when it enters its loop, read by
+            // whoever hands that worker something (the acceptor, for one)
+            std::atomic<std::thread::id> tid;
         };
 
         virtual void onReady(const FdSet& fds)              = 0;
